@@ -130,6 +130,7 @@ class pkcs7(blockiterator):
         return m+(bytes([q])*q)
     # remove padding:
     def remove(self,c):
+        if len(c)==0: raise PaddingError(c)
         q = c[-1]
         if q>self.blocklen or (c[-q:]!=bytes([q])*q):
             raise PaddingError(c)
@@ -152,6 +153,7 @@ class X923(blockiterator):
         return r
     # remove padding:
     def remove(self,c):
+        if len(c)==0: raise PaddingError(c)
         q = c[-1]
         if q<1 or q>self.blocklen or (c[-q:-1]!=b'\0'*(q-1)):
             raise PaddingError(c)
